@@ -200,3 +200,79 @@ pub proof fn lemma_changed_at_under(t1: Tree, t2: Tree, P: Seq<char>, d: Seq<cha
     requires under(P, d), forall|q: Seq<char>| q != d ==> (#[trigger] t2.contains_key(q) == t1.contains_key(q)) && (t1.contains_key(q) ==> t2[q] == t1[q])
     ensures changed_only_under(t1, t2, P)
 {}
+// ---- ancestors in well-formed trees (used for the OverlayFS frame when layers share a filesystem)
+pub proof fn lemma_under_parent(q: Seq<char>, x: Seq<char>)
+    requires canonical(x), x.len() > 0, under(q, x), q != x
+    ensures under(q, parent_spec(x))
+{
+    lemma_canonical_split(x);
+    let par = parent_spec(x);
+    let name = filename_spec(x);
+    let qs = q + seq!['/'];
+    assert(x == par + seq!['/'] + name);
+    assert(x.subrange(0, qs.len() as int) =~= qs);
+    if q.len() == par.len() {
+        assert(q =~= par) by { assert(x.subrange(0, q.len() as int) =~= q); assert(x.subrange(0, par.len() as int) =~= par); }
+    } else if q.len() < par.len() {
+        assert(par.subrange(0, qs.len() as int) =~= qs) by {
+            assert forall|i: int| 0 <= i < qs.len() implies par[i] == qs[i] by { assert(x.subrange(0, qs.len() as int)[i] == x[i]); assert(x[i] == par[i]); }
+        }
+    } else {
+        let i = q.len() as int;
+        assert(x[i] == '/') by { assert(x.subrange(0, qs.len() as int)[i] == qs[i]); }
+        assert(x[i] == name[i - par.len() - 1]);
+        assert(name.contains('/'));
+    }
+}
+pub proof fn lemma_wf_ancestor(t: Tree, x: Seq<char>, q: Seq<char>)
+    requires wf(t), t.contains_key(x), under(q, x)
+    ensures t.contains_key(q), q != x ==> is_dir_at(t, q)
+    decreases x.len()
+{
+    if q != x {
+        assert(x.len() > 0) by { if x.len() == 0 { assert((q + seq!['/']).len() <= x.len()); } }
+        assert(canonical(x) && is_dir_at(t, parent_spec(x)));
+        lemma_under_parent(q, x);
+        lemma_canonical_split(x);
+        assert(parent_spec(x).len() < x.len());
+        lemma_wf_ancestor(t, parent_spec(x), q);
+    }
+}
+pub proof fn lemma_cut_comparable(R: Seq<char>, p: Seq<char>, e: int)
+    requires under(R, p), is_cut(p, e)
+    ensures under(R, p.subrange(0, e)) || under(p.subrange(0, e), R)
+{
+    let q = p.subrange(0, e);
+    let rs = R + seq!['/'];
+    if p == R {
+        if e == p.len() { assert(q =~= R); } else {
+            assert((q + seq!['/']).is_prefix_of(R)) by { assert(R.subrange(0, e + 1) =~= q + seq!['/']); }
+        }
+    } else {
+        assert(p.subrange(0, rs.len() as int) =~= rs);
+        if e == R.len() {
+            assert(q =~= R) by { assert forall|i: int| 0 <= i < e implies q[i] == R[i] by { assert(p.subrange(0, rs.len() as int)[i] == rs[i]); } }
+        } else if e > R.len() {
+            assert(q.subrange(0, rs.len() as int) =~= rs) by {
+                assert forall|i: int| 0 <= i < rs.len() implies q[i] == rs[i] by { assert(p.subrange(0, rs.len() as int)[i] == rs[i]); }
+            }
+        } else {
+            assert(R.subrange(0, e + 1) =~= q + seq!['/']) by {
+                assert forall|i: int| 0 <= i < e + 1 implies R[i] == (q + seq!['/'])[i] by { assert(p.subrange(0, rs.len() as int)[i] == rs[i]); }
+            }
+        }
+    }
+}
+/// create_dir_all(p) below an existing root R of a well-formed tree changes nothing outside R
+pub proof fn lemma_frame_ok_under(t1: Tree, t2: Tree, R: Seq<char>, p: Seq<char>)
+    requires wf(t1), t1.contains_key(R), under(R, p), frame_ok(t1, t2, p)
+    ensures changed_only_under(t1, t2, R)
+{
+    assert forall|q: Seq<char>| !under(R, q) implies (#[trigger] t2.contains_key(q) == t1.contains_key(q)) && (t1.contains_key(q) ==> t2[q] == t1[q]) by {
+        if t2.contains_key(q) && !t1.contains_key(q) {
+            let e = choose|e: int| is_cut(p, e) && q == #[trigger] p.subrange(0, e);
+            lemma_cut_comparable(R, p, e);
+            lemma_wf_ancestor(t1, R, q);
+        }
+    }
+}
